@@ -33,6 +33,24 @@ theorem zero_extent_kernel_one (s0 s1 : ℤ) (os ang ps : ℝ) (i j : ℤ) :
   · simp [jitterKernel, BlurLike.exp]
   · simp [smearKernel, BlurLike.sinc]
 
+/-- **zero extent is the identity.** For a non-negative image with non-zero total, pixel width `0`, jitter `σ = 0` and
+smear distance `0` return the image itself at every sample, for every shape, angle, pixel scale and oversampling. -/
+theorem zero_extent_identity (img : Arr ℝ) (m n : ℕ) (hm : img.s0 = m) (hn : img.s1 = n) (hm0 : 0 < m) (hn0 : 0 < n)
+    (hpos : ∀ i j, 0 ≤ img.get i j) (hS : arrSum img ≠ 0) (os ang ps : ℝ) (i j : ℕ) (hi : i < m) (hj : j < n) :
+    (pixel ℂ img 0).get i j = img.get i j ∧ (jitter ℂ img 0 ps os).get i j = img.get i j ∧
+    (smear ℂ img 0 ang ps os).get i j = img.get i j := by
+  have hcore : ∀ k : Arr ℝ, (∀ i j, k.get i j = 1) → ∀ i j : ℕ, i < m → j < n → (blurCore ℂ img k).get i j = img.get i j := by
+    intro k hk i j hi hj
+    rw [blurCore_one img k hk m n hm hn hm0 hn0 i j hi hj, abs_of_nonneg (hpos _ _)]
+  refine ⟨hcore _ (fun i j => (zero_extent_kernel_one _ _ os ang ps i j).1) i j hi hj, ?_, ?_⟩
+  · exact renorm_of_eq img (blurCore ℂ img (jitterKernel img.s0 img.s1 0 ps os)) m n hm hn hm hn
+      (hcore _ (fun i j => (zero_extent_kernel_one _ _ os ang ps i j).2.1)) hS i j hi hj
+  · exact renorm_of_eq img (blurCore ℂ img (smearKernel img.s0 img.s1 0 ang ps os)) m n hm hn hm hn
+      (hcore _ (fun i j => (zero_extent_kernel_one _ _ os ang ps i j).2.2)) hS i j hi hj
+
+example : ∃ img : Arr ℝ, (∀ i j, 0 ≤ img.get i j) ∧ arrSum img ≠ 0 ∧ img.s0 ≠ img.s1 :=
+  ⟨⟨1, 2, fun _ _ => 1⟩, fun _ _ => by norm_num, by rw [arrSum_eq]; norm_num [Finset.sum_range_succ], by norm_num⟩
+
 /-- outputs are never negative (for jitter and smear: on images with non-negative total) -/
 theorem blur_nonneg (img : Arr ℝ) (os scale dist ang ps : ℝ) (hS : 0 ≤ arrSum img) (i j : ℤ) :
     0 ≤ (pixel ℂ img os).get i j ∧ 0 ≤ (jitter ℂ img scale ps os).get i j ∧ 0 ≤ (smear ℂ img dist ang ps os).get i j := by
@@ -44,14 +62,28 @@ theorem blur_nonneg (img : Arr ℝ) (os scale dist ang ps : ℝ) (hS : 0 ≤ arr
   · simp only [jitter, renorm]; exact div_nonneg (mul_nonneg (hcore _ i j) hS) (hsum _)
   · simp only [smear, renorm]; exact div_nonneg (mul_nonneg (hcore _ i j) hS) (hsum _)
 
-/-- the renormalised output keeps the input total whenever the un-normalised blur has non-zero total -/
-theorem renormalised_total_preserved_partial (img out : Arr ℝ) (h : arrSum out ≠ 0) :
-    arrSum (renorm img out) = arrSum img := by
+/-- renormalisation restores the input total whenever the un-normalised blur has non-zero total -/
+theorem renorm_total (img out : Arr ℝ) (h : arrSum out ≠ 0) : arrSum (renorm img out) = arrSum img := by
   rw [arrSum_eq]
   simp only [renorm]
   simp only [mul_div_assoc, ← sum_mul]
   rw [← arrSum_eq]
   field_simp
+
+/-- **jitter and smear keep the total.** For every image with non-zero total (in particular every non-negative image
+that is not identically zero), every shape, extent, angle, pixel scale and oversampling: the un-normalised blur has total
+`≥ |Σ img| > 0` (unit DC gain: `Σ ifft2(fft2(img)·K) = K[0,0]·Σ img`, then the triangle inequality), so the renormalised
+output has exactly the input total. -/
+theorem renormalised_total_preserved (img : Arr ℝ) (m n : ℕ) (hm : img.s0 = m) (hn : img.s1 = n) (hm0 : 0 < m) (hn0 : 0 < n)
+    (hS : arrSum img ≠ 0) (scale dist ang ps os : ℝ) :
+    arrSum (jitter ℂ img scale ps os) = arrSum img ∧ arrSum (smear ℂ img dist ang ps os) = arrSum img := by
+  have hdc := kernel_dc_gain_one img.s0 img.s1 (by omega) (by omega) os scale dist ang ps
+  have key : ∀ k : Arr ℝ, k.get 0 0 = 1 → arrSum (blurCore ℂ img k) ≠ 0 := by
+    intro k hk
+    have h := blurCore_total_ge img k m n hm hn hm0 hn0
+    rw [hk, one_mul] at h
+    exact ne_of_gt (lt_of_lt_of_le (abs_pos.mpr hS) h)
+  exact ⟨renorm_total img _ (key _ hdc.2.1), renorm_total img _ (key _ hdc.2.2)⟩
 
 /-- only `extent / pixelscale · oversample` enters: an extent in physical units with a pixel scale and an oversampling
 factor is the same blur as that extent expressed in samples -/
